@@ -537,11 +537,11 @@ def thread_case(workdir, tc):
     names = ['A'] + ['B', 'C'][:tc['others']]
     threads = {'A': runner('A', opts, body)}
     threads['A'].start()
-    a_holds.wait(1.5)
     def wait_for(pred, secs):
         end = time.time() + secs
         while time.time() < end and not pred(): time.sleep(0.002)
         return pred()
+    wait_for(lambda: a_holds.is_set() or 'A' in res, 3.0)
     if tc['others'] >= 1:
         threads['B'] = runner('B', FOLLOW[0], FOLLOW[1]); threads['B'].start()
         wait_for(lambda: ['B', 'acquire'] in tr.lock_waits or 'B' in res, 1.5)
